@@ -55,7 +55,9 @@ def write_files(root, files: dict):
     for rel, content in files.items():
         p = Path(root) / rel
         p.parent.mkdir(parents=True, exist_ok=True)
-        if isinstance(content, bytes):
+        if isinstance(content, tuple) and content and content[0] == "symlink":
+            os.symlink(content[1], str(p))  # ("symlink", target): target as written (relative targets are relative to the link)
+        elif isinstance(content, bytes):
             p.write_bytes(content)
         else:
             p.write_text(content, encoding="utf-8")
@@ -118,9 +120,17 @@ def measurement(name: str, length: int, line: int = 1, col: int = 1):
     return Measurement(name, Location(line, col), Location(line + max(0, length - 1), 2), length)
 
 
-def file_entry(path: str, language: str, lengths, checksum="0" * 32, names=None):
+def file_entry(path: str, language: str, lengths, checksum="0" * 32, names=None, nested=False):
+    """nested: the spans enclose each other like Russian dolls (function i+1 is defined inside function i); the value of a
+    measurement is its OWN line count either way"""
+    from codelimit.common.Location import Location
+    from codelimit.common.Measurement import Measurement
     from codelimit.common.SourceFileEntry import SourceFileEntry
 
+    if nested and len(lengths) > 1:
+        total = sum(lengths) + 2 * len(lengths)
+        ms = [Measurement(names[i] if names else f"f{i}", Location(1 + i, 1 + 2 * i), Location(total - i, 2 + 2 * i), L) for i, L in enumerate(lengths)]
+        return SourceFileEntry(path, checksum, language, sum(lengths), ms)
     ms = []
     line = 1
     for i, L in enumerate(lengths):
